@@ -5,6 +5,19 @@ let comp_cache : Registry.comp = fun params ->
   let st = ref (Cache.new_cache (z (List.nth params 0))) in
   fun toks ->
     let open Cache in
+    if toks = ["dump"] then begin
+      let c = !st in
+      let bl x = if x then "true" else "false" in
+      let hd = String.concat " " [ zs c.c_last; zs c.c_cycle; bl c.c_lastValid;
+          zs c.c_expected; zs c.c_totalExpected; zs c.c_received; zs c.c_totalReceived;
+          zs c.c_keyframe; bl c.c_keyframeValid;
+          bl c.c_bitmap.bm_valid; zs c.c_bitmap.bm_first; zs c.c_bitmap.bm_bits;
+          zs c.c_tail; string_of_int (List.length c.c_entries) ] in
+      let b = Buffer.create 256 in
+      Buffer.add_string b hd;
+      List.iter (fun e -> Buffer.add_string b (" " ^ zs e.e_seq ^ ":" ^ zs e.e_lam ^ ":" ^ zs e.e_ts)) c.c_entries;
+      Buffer.contents b
+    end else
     let op = match toks with
       | ["store"; s; ts; kf; m; data] -> OStore (z s, z ts, b kf, b m, bytes_of_hex data)
       | ["get"; s] -> OGet (z s)
